@@ -94,6 +94,9 @@ def check(ctx, res) -> None:
     _package_precedence_rule(ctx, res)
     _shared_global_rule(ctx, res)
     _same_pyname_strength_rule(ctx, res)
+    from .common import call_target_rule
+
+    call_target_rule(ctx, res, "R02.15")
     from .c14 import line_table_rule
 
     line_table_rule(ctx, res, "R02.11")
